@@ -216,13 +216,26 @@ func mgammaArgs(k int, b bounds) []float64 {
 }
 
 // incomplete gamma (a,x), a>0, x>=0
-func igamPairs(b bounds) [][2]float64 {
-	eps := math.Nextafter(1, 2) - 1
+// igamAs: the shape values of the (a,x) product lattice.
+func igamAs(b bounds) []float64 {
 	as := uniq(append(append(l1(b.m2, b.e2), halves(b.half)...),
 		aroundAll(1, 10, 20, 30, 200, 170, 171)...))
+	return filter(as, func(v float64) bool { return v > 0 })
+}
+
+// igamCurveAs: the shape values on which the two-argument selection curves are followed.
+func igamCurveAs(b bounds) []float64 {
+	ca := uniq(append(l1(b.curveM, b.curveE), halves(min(b.half, 30))...))
+	ca = append(ca, 25, 100, 250, 400, 1000, 3000)
+	ca = append(ca, igamOrderAs(b.th)...) // L5: both sides of every threshold in a
+	return uniq(ca)
+}
+
+func igamPairs(b bounds) [][2]float64 {
+	eps := math.Nextafter(1, 2) - 1
+	as := igamAs(b)
 	xs := uniq(append(append([]float64{0}, l1(b.m2, b.e2)...),
 		aroundAll(eps, 0.2, 0.5, 0.6, 1, 1.1, 10, 709, 744)...))
-	as = filter(as, func(v float64) bool { return v > 0 })
 	var r [][2]float64
 	for _, a := range as {
 		for _, x := range xs {
@@ -230,10 +243,7 @@ func igamPairs(b bounds) [][2]float64 {
 		}
 	}
 	// two-argument selection boundaries: for each a on a coarse lattice, x on the curve
-	ca := uniq(append(l1(b.curveM, b.curveE), halves(min(b.half, 30))...))
-	ca = append(ca, 25, 100, 250, 400, 1000, 3000)
-	ca = append(ca, igamOrderAs(b.th)...) // L5: both sides of every threshold in a
-	for _, a := range uniq(ca) {
+	for _, a := range igamCurveAs(b) {
 		curves := []float64{
 			a / 0.75,                       // x*0.75 < a       (0.5 <= x < 1.1)
 			math.Exp(-0.4 / a),             // -0.4/log(x) < a  (x < 0.5)
@@ -276,7 +286,8 @@ func uniqPairs(p [][2]float64) [][2]float64 {
 }
 
 // Bessel I (nu, x)
-func besselPairs(b bounds) [][2]float64 {
+// besselVs: the orders of the (nu,x) product lattice.
+func besselVs(b bounds) []float64 {
 	vp := uniq(append(append([]float64{0}, l1(b.m2, b.e2)...), halves(b.half)...))
 	vp = append(vp, aroundAll(0.5, 1, 170, 1.5, 2.5)...)
 	vn := uniq(append(l1(b.negBessM, b.negBessE), halves(b.half)...))
@@ -285,7 +296,16 @@ func besselPairs(b bounds) [][2]float64 {
 	for _, v := range vn {
 		vs = append(vs, -v)
 	}
-	vs = uniq(vs)
+	return uniq(vs)
+}
+
+// besselCurveVs: the (unsigned) orders on which the two-argument selection curves are followed.
+func besselCurveVs(b bounds) []float64 {
+	return uniq(append(append([]float64{0, 0.25, 0.75, 3.25}, l1(b.curveM, b.curveE)...), halves(min(b.half, 30))...))
+}
+
+func besselPairs(b bounds) [][2]float64 {
+	vs := besselVs(b)
 	xs := uniq(append(append([]float64{0}, l1(b.m2, b.e2)...),
 		aroundAll(1, 2, 7.75, 100, 500, 709, 710)...))
 	var r [][2]float64
@@ -297,8 +317,7 @@ func besselPairs(b bounds) [][2]float64 {
 	// curves: x/v = 0.25; asymptotic-expansion limit ((4v^2+10)/(8x))^4/24 = 10 eps
 	eps := math.Nextafter(1, 2) - 1
 	q := math.Pow(240*eps, 0.25)
-	cv := uniq(append(append([]float64{0, 0.25, 0.75, 3.25}, l1(b.curveM, b.curveE)...), halves(min(b.half, 30))...))
-	for _, v := range cv {
+	for _, v := range besselCurveVs(b) {
 		for _, s := range []float64{1, -1} {
 			if v == 0 && s < 0 {
 				continue
@@ -405,6 +424,7 @@ func points(thorough bool) []Pt {
 		r = append(r, Pt{"powm1", p[0], p[1]})
 	}
 	r = append(r, orderPoints(thorough)...)
+	r = append(r, rangeTablePoints(thorough)...) // L6: polygamma range grid, per-shape constants
 	// points are distinct: drop repetitions (L5 overlaps L1-L3), keeping first occurrences
 	seen := make(map[Pt]bool, len(r))
 	out := r[:0]
@@ -419,7 +439,7 @@ func points(thorough bool) []Pt {
 }
 
 // families in table-file order
-var families = []string{"uni", "poly", "mgamma", "int", "igam", "bessel", "logadd", "powm1"}
+var families = []string{"uni", "poly", "mgamma", "int", "shape", "igam", "bessel", "logadd", "powm1"}
 
 func familyOf(fn string) string {
 	switch fn {
@@ -429,6 +449,8 @@ func familyOf(fn string) string {
 		return "poly"
 	case "factorial", "bernoulli":
 		return "int"
+	case "igshape", "beshape":
+		return "shape"
 	}
 	return fn
 }
